@@ -773,6 +773,17 @@ func (v *fnVC) trCall(x *CallE, env *Env) (T, types.Type) {
 	case "isTyped": // isTyped(e): e is nil or its dynamic type implements ucfg.Error
 		a, _ := v.tr(x.Args[0], env)
 		return or(eq(a, "(mkI 0 0)"), app("impl_ucfg_Error", app("itag", a))), types.Typ[types.Bool]
+	case "allocated": // allocated(x): the object x refers to exists in the selected heap state
+		a, ty := v.tr(x.Args[0], env)
+		ref := a
+		switch ty.Underlying().(type) {
+		case *types.Interface:
+			ref = app("ipay", a)
+		case *types.Slice:
+			ref = app("sbase", a)
+		}
+		v.memSrt[allocMem] = "Bool"
+		return and(sel(v.snapMem(env, allocMem), ref), sel(v.snapMem(env, allocMem), app("root", ref))), types.Typ[types.Bool]
 	case "nilv": // nilv(): the nil value (interface)
 		return "(mkI 0 0)", v.e.typesPkg(modPrefix).Scope().Lookup("value").Type()
 	case "subval": // subval(c): the value (boxed cfgSub) wrapping config c
